@@ -326,3 +326,202 @@ def run_nlg_case(flag, nodes, links):
     if dict(H.graph) != {'name': 'g'}:
         out['C11.rebuild.graph_attributes_are_those_of_the_data'] = repr(H.graph)
     return out
+
+
+# ---- parse_interactions (C10 reader): the row loop on abstract lines ---------------------------------------------------------------
+#
+# per line, in order (P(line) as above):  skipped unless the text left of the comment marker is non-empty and P(line) has exactly 4 fields
+#   '+' row:  EXACTLY ONE call add_interaction(nodetype(f0), nodetype(f1), t=timestamptype(f3)), no vanishing time
+#   other  :  with [a, b] the LATEST run of the pair in the graph built so far:  if b < s := timestamptype(f3) EXACTLY ONE call
+#             add_interaction(u, v, t=a, e=s) ("the pair stays present from its latest appearance through s - 1"), otherwise no call
+#             (a KeyError for a pair that was never added is neither required nor forbidden by the contract)
+# The graph built so far is an arbitrary graph satisfying the representation invariant (the calls are observed, not executed; the loop
+# invariant is just Inv(G), which the kernel contract preserves).
+
+from .base import install_caller_hooks          # noqa: E402
+from pyvc import spec as _spec          # noqa: E402
+from pyvc import linemodel as _lm          # noqa: E402
+
+
+class ParseInteractions(Contract):
+    props = ('C10', 'C18')
+    key = 'edgelist::parse_interactions'
+
+    def __init__(self, cls, bound_n=None):
+        self.cls = cls
+        self.directed = cls == 'DynDiGraph'
+
+    def uses(self, eng):
+        return [Init('DynGraph'), Init('DynDiGraph')]
+
+    def reads(self):
+        return [Init(self.cls).key]
+
+    def setup(self, ctx, variant):
+        w = LineWorld()
+        _lm.CURRENT_WORLD = w
+        n = fresh('n_lines', Int)
+        lz = fresh_fun('line', Int, Obj)
+        ctx.assume(n >= 0)
+        lines = VSeq(n, lambda k: VLine(w, lz(k)), {'elem_kind': 'line'})
+        install_caller_hooks(ctx, cats=('shape', 'canon'))
+        ctx.focus = []
+
+        def nodetype(interp, argv, kwv, fr):
+            x = argv[0]
+            if x.kind != 'opaque' or x.tag != 'field':
+                raise Undecided('nodetype applied to something that is not a field')
+            if interp.ctx.branch(w.nfail(x.z), 'nodetype-fails'):
+                raise PyRaise('Exception', 'conversion of a node field')
+            nd = w.nodeof(x.z)
+            interp.ctx.add_focus([nd])
+            return VNode(nd)
+
+        def timestamptype(interp, argv, kwv, fr):
+            x = argv[0]
+            if x.kind != 'opaque' or x.tag != 'field':
+                raise Undecided('timestamptype applied to something that is not a field')
+            if interp.ctx.branch(w.tfail(x.z), 'timestamptype-fails'):
+                raise PyRaise('Exception', 'conversion of a time field')
+            return VInt(w.timeof(x.z))
+        c = Call(w=w, n=n, lz=lz, calls=[],
+                 argv=[lines, VOpaque(fresh('comments', Obj), 'param'), VBool(self.directed), VOpaque(fresh('delimiter', Obj), 'param'),
+                       VCallable(nodetype, 'nodetype'), VCallable(timestamptype, 'timestamptype'), VNone], kwv={})
+        ctx.pi = c
+
+        def hook(interp, g, name, argv, kwv):
+            c.calls.append((g, list(argv), dict(kwv)))
+            return VNone
+        hook.names = {'add_interaction'}
+        ctx.method_hook = hook
+        return c
+
+    def loop_specs(self):
+        def inv(L):
+            c = L.ctx.pi
+            if L.assuming or z3.is_int_value(z3.simplify(L.k)):
+                return []
+            k = z3.simplify(L.k - 1)
+            w = c.w
+            raw = c.lz(k)
+            cutl = z3.If(w.cpos(raw) >= 0, w.cut(raw), raw)
+            P = w.strip(cutl)
+            skip = z3.Or(w.length(cutl) == 0, w.nf(P) != 4)
+            f = lambda i: w.fld(P, IntV(i))
+            u, v, s_ = w.nodeof(f(0)), w.nodeof(f(1)), w.timeof(f(3))
+            plus = w.is_text(f(2), '+')
+            g = L.ctx.graphs.get('H')
+            calls = c.calls
+            out = [('at_most_one_kernel_call_per_row', z3.BoolVal(len(calls) <= 1))]
+            if g is None:
+                return out + [('a_graph_is_being_built', z3.BoolVal(False))]
+            r = g.cell(u, v)
+            Lr = g['Len'][r]
+            closes = z3.And(r != 0, Lr > 0, g['E'][r][Lr - 1] < s_)
+            if len(calls) == 0:
+                out.append(('no_call_only_for_a_skipped_row_or_a_vanishing_that_changes_nothing', z3.Or(skip, z3.And(z3.Not(plus), z3.Not(closes)))))
+            elif len(calls) == 1:
+                g2, argv, kwv = calls[0]
+                args = dict(zip(['u', 'v', 't', 'e'], argv))
+                args.update(kwv)
+                a_u, a_v, a_t, a_e = args.get('u'), args.get('v'), args.get('t'), args.get('e', VNone)
+                ok_uv = z3.BoolVal(False) if not (a_u is not None and a_v is not None and a_u.kind == 'node' and a_v.kind == 'node') else z3.And(a_u.z == u, a_v.z == v)
+                if a_e is None or a_e.kind == 'none':
+                    shape = z3.And(plus, z3.BoolVal(False) if a_t is None or a_t.kind != 'int' else a_t.z == s_)
+                elif a_e.kind == 'int' and a_t is not None and a_t.kind == 'int':
+                    shape = z3.And(z3.Not(plus), closes, a_t.z == g['S'][r][Lr - 1], a_e.z == s_)
+                else:
+                    shape = z3.BoolVal(False)
+                out += [('a_row_that_is_read_is_not_one_to_skip', z3.Not(skip)), ('endpoints_are_the_first_two_fields', ok_uv),
+                        ('appearance_at_t_or_vanishing_of_the_latest_run_at_t', shape)]
+            return out
+        comps = None
+
+        def modifies():
+            from pyvc.values import HGraph
+            return {'H': HGraph('H', self.directed, self.cls).comp_names()}
+        return {'seq/1': LoopSpec(inv, modifies=modifies(), tags=('C10', 'C18'))}
+
+    def finish(self, ctx, c, outcome):
+        T_ = ('C10', 'C18')
+        if outcome[0] == 'raise':
+            if outcome[1] not in ('TypeError', 'KeyError'):
+                return self.forbid(ctx, 'C18.parse_interactions.conversion_failures_raise_TypeError.%s' % outcome[1], tags=T_, note=outcome[2])
+            return
+        r = outcome[1]
+        if r.kind != 'graph':
+            return self.shape(ctx, 'C10.parse_interactions.returns_a_graph', tags=T_, note='result kind %s' % r.kind)
+        ctx.oblige('C10.parse_interactions.class_selected_by_directed', z3.BoolVal(r.g.cls == self.cls), tags=T_)
+
+    def search_real(self, engine):
+        cases = [['1 2 + 0', '1 2 - 3'], ['1 2 + 0', '2 1 + 4', '1 2 - 8'], ['1 2 + 0', '1 2 + 1', '1 2 - 2', '1 2 + 5', '1 2 - 9'],
+                 ['# c', '1 2 + 0 # t', '1 2 +', '1 2 + 0 1', '1 2 - 0'], ['1 2 + x'], ['a 2 + 0'], ['1 2 + 3', '3 1 + 3', '1 2 - 4', '3 1 - 6']]
+        for lines in cases:
+            v = run_parse_interactions_case(self.cls, lines)
+            if v:
+                return {'violated': v, 'call': 'parse_interactions(%r, directed=%r, nodetype=int, timestamptype=int) with add_interaction recorded' % (lines, self.directed),
+                        'replayer': {'module': 'contracts.parsers', 'function': 'run_parse_interactions_case', 'args': [self.cls, lines]}}
+        return None
+
+
+def run_parse_interactions_case(cls, lines):
+    import dynetx as dn
+    from dynetx.readwrite import edgelist as E
+    calls = []
+
+    def rec(base):
+        def make(*a, **k):
+            G = base(*a, **k)
+            real_add = G.add_interaction
+
+            def add(u, v, t=None, e=None):
+                calls.append((u, v, t if not isinstance(t, list) else ('LIST', tuple(t)), e))
+                return real_add(u, v, t, e)
+            G.add_interaction = add
+            return G
+        return make
+    real = (E.DynGraph, E.DynDiGraph)
+    E.DynGraph, E.DynDiGraph = rec(dn.DynGraph), rec(dn.DynDiGraph)
+    directed = cls == 'DynDiGraph'
+    try:
+        try:
+            E.parse_interactions(list(lines), directed=directed, nodetype=int, timestamptype=int)
+            outcome = 'return'
+        except Exception as ex:
+            outcome = type(ex).__name__
+    finally:
+        E.DynGraph, E.DynDiGraph = real
+    ref = getattr(dn, cls)()
+    exp, exp_outcome = [], 'return'
+    for line in lines:
+        p = line.find('#')
+        if p >= 0:
+            line = line[:p]
+        if not len(line):
+            continue
+        f = line.strip().split(None)
+        if len(f) != 4:
+            continue
+        try:
+            u, v, s = int(f[0]), int(f[1]), int(f[3])
+        except Exception:
+            exp_outcome = 'TypeError'
+            break
+        if f[2] == '+':
+            exp.append((u, v, s, None))
+            ref.add_interaction(u, v, s)
+        else:
+            try:
+                tl = ref.adj[u][v]['t']
+            except KeyError:
+                exp_outcome = 'KeyError'
+                break
+            if len(tl) > 0 and tl[-1][1] < s:
+                exp.append((u, v, tl[-1][0], s))
+                ref.add_interaction(u, v, tl[-1][0], s)
+    out = {}
+    if outcome != exp_outcome:
+        out['C18.parse_interactions.conversion_failures_raise_TypeError.%s' % outcome] = 'outcome %s, expected %s' % (outcome, exp_outcome)
+    elif calls != exp:
+        out['loop.step.appearance_at_t_or_vanishing_of_the_latest_run_at_t'] = 'kernel calls %r, the rows ask for %r' % (calls, exp)
+    return out
